@@ -538,21 +538,20 @@ pub mod c18 {
     /// length; section 6.1 method 1 compression), for a message of exactly N bytes padded into B 64-byte blocks, where
     /// B is the least number of blocks that holds N + 1 + 8 bytes -- computed here from the RFC's rule, not from the code's formula.
     fn sha1_rfc<const N: usize, const B: usize>(m: &[u8; N]) -> [u8; 20] {
-        let mut blocks = [[0u8; 64]; B];
-        let mut i = 0;
-        while i < N { blocks[i / 64][i % 64] = m[i]; i += 1; }
-        blocks[N / 64][N % 64] = 0x80;
+        // (slice copies instead of byte loops keep the unwinding bound at the 80 rounds of the compression function)
+        let mut buf = vec![0u8; B * 64];
+        buf[..N].copy_from_slice(m);
+        buf[N] = 0x80;
         let bits = (N as u64) * 8;
-        let lb = bits.to_be_bytes();
-        let mut k = 0;
-        while k < 8 { blocks[B - 1][56 + k] = lb[k]; k += 1; }
+        buf[B * 64 - 8..].copy_from_slice(&bits.to_be_bytes());
         let mut h: [u32; 5] = [0x67452301, 0xEFCDAB89, 0x98BADCFE, 0x10325476, 0xC3D2E1F0];
         let mut bi = 0;
         while bi < B {
             let mut w = [0u32; 80];
             let mut t = 0;
             while t < 16 {
-                w[t] = ((blocks[bi][4 * t] as u32) << 24) | ((blocks[bi][4 * t + 1] as u32) << 16) | ((blocks[bi][4 * t + 2] as u32) << 8) | (blocks[bi][4 * t + 3] as u32);
+                let o = bi * 64 + 4 * t;
+                w[t] = ((buf[o] as u32) << 24) | ((buf[o + 1] as u32) << 16) | ((buf[o + 2] as u32) << 8) | (buf[o + 3] as u32);
                 t += 1;
             }
             while t < 80 { w[t] = (w[t - 3] ^ w[t - 8] ^ w[t - 14] ^ w[t - 16]).rotate_left(1); t += 1; }
@@ -585,14 +584,12 @@ pub mod c18 {
         assert!(got[j] == want[j], "SHA-1 digest equals RFC 3174 for every message of this length (padding boundary included)");
         kani::cover!(true, "sha1 harness ran to its end");
     }
-    /// the same obligation for ONE message per length (byte i = 0x61 + i mod 7): the padding rule depends on the length only,
+    /// the same obligation for ONE message per length (every byte 0x61): the padding rule depends on the length only,
     /// so this decides section 4 (padding / block count / length field) of the REAL code for that length; cheap because CBMC
     /// folds the constants. Labelled bounded: it says nothing about other contents.
     fn sha1_fixed<const N: usize, const B: usize>() {
         assert!(B * 64 >= N + 9 && (B - 1) * 64 < N + 9, "harness instance: B is the RFC block count for N");
-        let mut m = [0u8; N];
-        let mut i = 0;
-        while i < N { m[i] = 0x61 + (i % 7) as u8; i += 1; }
+        let m = [0x61u8; N];
         let got = m.hash();
         let want = sha1_rfc::<N, B>(&m);
         assert!(got == want, "SHA-1 digest equals RFC 3174 at this message length (padding boundary)");
@@ -601,7 +598,7 @@ pub mod c18 {
     macro_rules! sha1f {
         ($name:ident, $n:expr, $b:expr) => {
             #[kani::proof]
-            #[kani::unwind(130)]
+            #[kani::unwind(200)]   // > 3 blocks * 64 bytes: zero-filling the padded message is a byte loop for CBMC
             pub fn $name() { sha1_fixed::<$n, $b>(); }
         };
     }
@@ -622,7 +619,7 @@ pub mod c18 {
     macro_rules! sha1h {
         ($name:ident, $n:expr, $b:expr) => {
             #[kani::proof]
-            #[kani::unwind(82)]
+            #[kani::unwind(200)]
             pub fn $name() { sha1_contract::<$n, $b>(); }
         };
     }
